@@ -45,6 +45,23 @@ func c06f(c *Ctx) {
 			}
 		}
 	}
+	resetUnit := map[*ssa.Function]bool{}
+	if pp := c.Fn("parser.Parser.ParseProgram"); pp != nil {
+		for _, ci := range callsIn(pp) {
+			if g := callee(ci); g != nil && c.W.InRepo(g) {
+				// called by ParseProgram and by nobody else
+				only := true
+				for _, cs := range c.W.callsTo(g) {
+					if cs.Parent() != pp && !isTestFunc(c.W, cs.Parent()) {
+						only = false
+					}
+				}
+				if only {
+					resetUnit[g] = true
+				}
+			}
+		}
+	}
 	nTouch := 0
 	for _, fn := range c.W.Funcs {
 		if isTestFunc(c.W, fn) || len(fn.Blocks) == 0 {
@@ -70,6 +87,22 @@ func c06f(c *Ctx) {
 				if inUnit[o][fn] {
 					okOwner = true
 				}
+			}
+			// a helper of ParseProgram that does nothing with the table but make it anew (the
+			// reset at the start of a compilation, moved into a function of its own)
+			if !okOwner && resetUnit[fn] && fa.Referrers() != nil {
+				onlyReset := true
+				for _, r := range *fa.Referrers() {
+					st, isSt := r.(*ssa.Store)
+					if !isSt || st.Addr != ssa.Value(fa) {
+						onlyReset = false
+						continue
+					}
+					if _, isMk := st.Val.(*ssa.MakeMap); !isMk && !emptyListValue(st.Val) {
+						onlyReset = false
+					}
+				}
+				okOwner = onlyReset
 			}
 			// the table does not travel either: what is read out of the field is looked up, ranged
 			// over, measured, appended to or updated in place — not handed to anybody
